@@ -40,7 +40,7 @@ def result() -> Dict[str, Any]:
 
 
 def violation(sig: str, what: str, case: Any) -> Dict[str, Any]:
-    assert ' ' not in sig and '\n' not in sig, sig
+    sig = '_'.join(sig.split())      # signatures are single tokens in KNOWN_FINDINGS.txt
     return {'sig': sig, 'what': what, 'case': case}
 
 
